@@ -36,11 +36,11 @@ Definition cfg_fixed : cfg := mkCfg true true true true true.
 Definition cfg_ge_now (c : cfg) : Prop :=
   fix_store c = true /\ fix_counts c = true /\ fix_locfail c = true /\ fix_grid c = true.
 
-(* proposed fixes, not in the code yet (fixes/C09_11 ..): the code as it is now has them all off *)
+(* the fixes C09_11 .. C09_14 (all applied: p_all is the code as it is now; p_none is kept for the regression examples) *)
 Record pcfg := mkP {
   fix_rule : bool;    (* C09_11: Rule reader checks the root descriptor, the result of the tree construction and its completeness *)
   fix_neigh : bool;   (* C09_12: ANeigh refuses a space dimension larger than the file *)
-  fix_vario : bool;   (* C09_13: Vario reader refuses calculation types that end the process, directions that are not added, result arrays larger than the file *)
+  fix_vario : bool;   (* C09_13: Vario reader refuses directions that are not added and result arrays larger than the file *)
   fix_model : bool    (* C09_14: Model reader turns an exception of the covariance setters into a failure *)
 }.
 Definition p_none : pcfg := mkP false false false false.
@@ -206,7 +206,7 @@ Definition alloc (E : env) (site n sz : Z) (m : mon) : res unit :=
   if n <? 0 then Bad (Throw 2 site)
   else if e_cap E <? n * sz then Bad (Throw 1 site)
   else Ret tt (mkM (ms m) (galloc m + n * sz)).
-(* what the candidate fix C09_2 tests: 0 <= n <= number of bytes not yet consumed *)
+(* what _isCountInFile (fixes/C09_2) tests: 0 <= n <= number of bytes not yet consumed *)
 Definition remaining (m : mon) : Z := if good (ms m) then Z.of_nat (length (rest (ms m))) else 0.
 Definition count_ok (E : env) (n : Z) (m : mon) : bool :=
   if fix_counts (e_cfg E) then (0 <=? n) && (n <=? remaining m) else true.
